@@ -305,7 +305,24 @@ def _single_return_expr(fn: ast.FunctionDef) -> Optional[ast.expr]:
     body = [st for st in fn.body if not (isinstance(st, ast.Expr) and isinstance(st.value, ast.Constant) and isinstance(st.value.value, str))]
     if len(body) == 1 and isinstance(body[0], ast.Return) and body[0].value is not None:
         return body[0].value
-    return None
+    # a chain of guard clauses -- `if c1: return a` / `if c2: return b` / `return z` -- is the expression
+    # `a if c1 else (b if c2 else z)`
+    def chain(stmts):
+        if not stmts:
+            return None
+        st = stmts[0]
+        if isinstance(st, ast.Return) and st.value is not None and len(stmts) == 1:
+            return st.value
+        if isinstance(st, ast.If) and len(st.body) == 1 and isinstance(st.body[0], ast.Return) and st.body[0].value is not None:
+            if st.orelse:
+                rest = chain(st.orelse) if len(stmts) == 1 else None
+            else:
+                rest = chain(stmts[1:])
+            if rest is None:
+                return None
+            return ast.copy_location(ast.IfExp(test=st.test, body=st.body[0].value, orelse=rest), st)
+        return None
+    return chain(body)
 
 
 def _simple_arg(e: ast.expr) -> bool:
@@ -801,6 +818,164 @@ def _rewrite_functional(fn: ast.FunctionDef) -> int:
     return count[0]
 
 
+# ---------------------------------------------------------------------------------------------------------- generators in for loops
+def _own_nodes(fn: ast.FunctionDef):
+    """nodes of fn not inside nested function definitions / lambdas"""
+    todo = list(fn.body)
+    while todo:
+        n = todo.pop()
+        yield n
+        for c in ast.iter_child_nodes(n):
+            if isinstance(c, (ast.FunctionDef, ast.AsyncFunctionDef, ast.Lambda)):
+                continue
+            todo.append(c)
+
+
+def _is_simple_generator(fn: ast.FunctionDef) -> bool:
+    ys = [n for n in _own_nodes(fn) if isinstance(n, (ast.Yield, ast.YieldFrom))]
+    if not ys or any(isinstance(y, ast.YieldFrom) for y in ys):
+        return False
+    # every yield is a statement of its own
+    stmts = [n for n in _own_nodes(fn) if isinstance(n, ast.Expr) and isinstance(n.value, ast.Yield)]
+    if len(stmts) != len(ys):
+        return False
+    if any(isinstance(n, ast.Return) and n.value is not None for n in _own_nodes(fn)):
+        return False
+    if fn.decorator_list or fn.args.vararg or fn.args.kwarg or fn.args.posonlyargs:
+        return False
+    return True
+
+
+def _yield_is_tail(body: List[ast.stmt]) -> bool:
+    """inside the generator, nothing is executed after a `yield` within the same loop iteration (so a `continue` in the
+    consumer's body -- which resumes the generator -- means the same as a `continue` of the generator's loop)"""
+    def tail_ok(stmts, is_tail):
+        for i, st in enumerate(stmts):
+            last = is_tail and i == len(stmts) - 1
+            if isinstance(st, ast.Expr) and isinstance(st.value, ast.Yield):
+                if not last:
+                    return False
+            elif isinstance(st, ast.If):
+                if not tail_ok(st.body, last) or not tail_ok(st.orelse, last):
+                    return False
+            elif isinstance(st, (ast.For, ast.While)):
+                if not tail_ok(st.body, True) or any(isinstance(x, ast.Expr) and isinstance(x.value, ast.Yield) for y in st.orelse for x in ast.walk(y)):
+                    return False
+            elif isinstance(st, (ast.With, ast.Try)):
+                if any(isinstance(x, ast.Yield) for x in ast.walk(st)):
+                    return False
+        return True
+    return tail_ok(body, True)
+
+
+def _rewrite_generator_loops(body: List[ast.stmt], find_gen) -> bool:
+    """`for T in helper(args): BODY` with helper a *new* simple generator: the generator's body with BODY at every yield."""
+    changed = False
+    i = 0
+    while i < len(body):
+        st = body[i]
+        for field in ("body", "orelse", "finalbody"):
+            sub = getattr(st, field, None)
+            if isinstance(sub, list) and sub and isinstance(sub[0], ast.stmt) and not isinstance(st, (ast.FunctionDef, ast.AsyncFunctionDef, ast.ClassDef)):
+                changed |= _rewrite_generator_loops(sub, find_gen)
+        if isinstance(st, ast.Try):
+            for h in st.handlers:
+                changed |= _rewrite_generator_loops(h.body, find_gen)
+        if isinstance(st, ast.For) and not st.orelse and isinstance(st.iter, ast.Call):
+            res = find_gen(st.iter)
+            if res is not None:
+                gen, skip_self, self_expr = res
+                loop_body = st.body
+                own = [n for b in loop_body for n in ast.walk(b)]
+                # break / continue that belong to this loop (not to loops nested in the body)
+                def belongs(kind):
+                    def scan(stmts):
+                        for s_ in stmts:
+                            if isinstance(s_, kind):
+                                return True
+                            if isinstance(s_, (ast.For, ast.While, ast.FunctionDef, ast.AsyncFunctionDef, ast.ClassDef)):
+                                continue
+                            for f_ in ("body", "orelse", "finalbody"):
+                                sub_ = getattr(s_, f_, None)
+                                if isinstance(sub_, list) and sub_ and isinstance(sub_[0], ast.stmt) and scan(sub_):
+                                    return True
+                            if isinstance(s_, ast.Try) and any(scan(h.body) for h in s_.handlers):
+                                return True
+                        return False
+                    return scan(loop_body)
+                if not belongs(ast.Break) and (not belongs(ast.Continue) or _yield_is_tail(gen.body)) \
+                        and not any(isinstance(n, ast.Return) for n in own) and _yield_is_tail(gen.body):
+                    new = _expand_generator_for(gen, st.iter, skip_self, self_expr, st.target, loop_body)
+                    if new is not None:
+                        for x in new:
+                            ast.copy_location(x, st)
+                            ast.fix_missing_locations(x)
+                        body[i:i + 1] = new
+                        changed = True
+                        continue
+        i += 1
+    return changed
+
+
+def _expand_generator_for(gen, call, skip_self, self_expr, target, loop_body) -> Optional[List[ast.stmt]]:
+    _Counter.n += 1
+    prefix = "__inl%d_" % _Counter.n
+    binding = _bind_args(gen, call, skip_self, prefix)
+    if binding is None or any(p.startswith("*") for p, _ in binding):
+        return None
+    locals_ = _assigned_names(gen) | {p for p, _ in binding}
+    mapping = {nm: prefix + nm for nm in locals_}
+    pre: List[ast.stmt] = []
+    if skip_self and gen.args.args:
+        sname = gen.args.args[0].arg
+        if not (isinstance(self_expr, ast.Name) and self_expr.id == sname):
+            mapping[sname] = prefix + sname
+            pre.append(ast.Assign(targets=[ast.Name(id=prefix + sname, ctx=ast.Store())], value=copy.deepcopy(self_expr)))
+        else:
+            mapping.pop(sname, None)
+    pre += [ast.Assign(targets=[ast.Name(id=mapping[p], ctx=ast.Store())], value=v) for p, v in binding]
+    body = [copy.deepcopy(s_) for s_ in gen.body
+            if not (isinstance(s_, ast.Expr) and isinstance(s_.value, ast.Constant) and isinstance(s_.value.value, str))]
+
+    class _R(ast.NodeTransformer):
+        def visit_Name(self, node):
+            if node.id in mapping:
+                return ast.copy_location(ast.Name(id=mapping[node.id], ctx=node.ctx), node)
+            return node
+
+        def visit_FunctionDef(self, node):
+            return node
+        visit_Lambda = visit_FunctionDef
+
+        def visit_ExceptHandler(self, node):
+            if node.name and node.name in mapping:
+                node.name = mapping[node.name]
+            self.generic_visit(node)
+            return node
+
+        def visit_Expr(self, node):
+            if isinstance(node.value, ast.Yield):
+                val = self.visit(node.value.value) if node.value.value is not None else ast.Constant(value=None)
+                assign = ast.Assign(targets=[copy.deepcopy(target)], value=val)
+                return [assign] + [copy.deepcopy(b) for b in loop_body]
+            self.generic_visit(node)
+            return node
+
+        def visit_Return(self, node):
+            return None     # bare return in a generator: handled by refusing below
+    if any(isinstance(n, ast.Return) for n in _own_nodes(gen)):
+        return None
+    r = _R()
+    out: List[ast.stmt] = []
+    for s_ in body:
+        x = r.visit(s_)
+        if isinstance(x, list):
+            out += x
+        elif x is not None:
+            out.append(x)
+    return pre + out
+
+
 def normalize_module_trees(modules: Dict[str, ast.Module]) -> List[str]:
     """Inline single-caller private helpers / closures in place. Returns a log of what was inlined."""
     log: List[str] = []
@@ -977,6 +1152,27 @@ def normalize_module_trees(modules: Dict[str, ast.Module]) -> List[str]:
                         if nf:
                             any_change = True
                             log.append("%s.%s: %d functional idiom(s) spelled out" % (cls.name if cls else mn, fn.name, nf))
+                    def find_gen(call, mn=mn, cls=cls, self_name=self_name, fn=fn):
+                        f = call.func
+                        if isinstance(f, ast.Name) and private(f.id):
+                            owners_m = module_funcs.get(f.id) or []
+                            if len(owners_m) == 1 and f.id not in method_owner and (owners_m[0] == mn or f.id in module_imports.get(mn, ())):
+                                d = [n for n in modules[owners_m[0]].body if isinstance(n, ast.FunctionDef) and n.name == f.id]
+                                if d and d[0] is not fn and _is_simple_generator(d[0]) and not _calls(d[0], f.id):
+                                    return d[0], False, None
+                        if isinstance(f, ast.Attribute) and _plain_chain(f.value) and private(f.attr):
+                            owners = method_owner.get(f.attr) or []
+                            if cls is not None and cls.name in owners and isinstance(f.value, ast.Name) and f.value.id == self_name:
+                                owners = [cls.name]
+                            if len(owners) == 1 and f.attr not in module_funcs:
+                                d = [n for n in class_defs[owners[0]].body if isinstance(n, ast.FunctionDef) and n.name == f.attr]
+                                if d and d[0] is not fn and _is_simple_generator(d[0]) and not _calls(d[0], f.attr):
+                                    return d[0], True, f.value
+                        return None
+                    if _rewrite_generator_loops(fn.body, find_gen):
+                        any_change = True
+                        log.append("%s.%s: new generator(s) unfolded into the consuming loop" % (cls.name if cls else mn, fn.name))
+                        ast.fix_missing_locations(fn)
                     if _rewrite_withs(fn.body, find_cm_func, find_cm_class):
                         any_change = True
                         log.append("%s.%s: expanded new context manager(s)" % (cls.name if cls else mn, fn.name))
